@@ -7,6 +7,7 @@ open H4.Limits
 structure LimSt where
   cfg : Cfg := {}
   s : St := default
+  refs : RefSt := ⟨0, []⟩      -- reference-number state of the `refhist` / `refexh` cases
 
 private def showDD (s : St) (tag ref : Nat) : String :=
   match findDD s tag ref with
@@ -32,6 +33,45 @@ private def usedSet (kind a b : String) : Option (Nat → Bool) :=
     let holes ← natList b
     pure fun r => decide (1 ≤ r ∧ r ≤ n) && !holes.contains r
   | _ => none
+
+/-- descriptor runs of the `ref*` lines: `-` or comma separated `a` / `a-b` (one descriptor for every number a..b) -/
+private def parseRuns (t : String) : Option (List (Nat × Nat)) :=
+  if t == "-" then some [] else
+  (t.splitOn ",").mapM fun it =>
+    match it.splitOn "-" with
+    | [a] => a.toNat?.map fun a => (a, a)
+    | [a, b] => do let a ← a.toNat?; let b ← b.toNat?; pure (a, b)
+    | _ => none
+
+/-- a sorted list split into its distinct values and what is left when one occurrence of each is taken away -/
+private def splitDistinct (l : List Nat) : List Nat × List Nat :=
+  let rec go : List Nat → Option Nat → List Nat → List Nat → List Nat × List Nat
+    | [], _, d, r => (d.reverse, r.reverse)
+    | x :: xs, last, d, r => if last == some x then go xs last d (x :: r) else go xs (some x) (x :: d) r
+  go l none [] []
+
+/-- the runs of consecutive numbers of a sorted list of distinct values, as `a` / `a-b` -/
+private def runStrs (l : List Nat) : List String :=
+  let item (lo hi : Nat) : String := if lo == hi then toString lo else s!"{lo}-{hi}"
+  let rec go : List Nat → Nat → Nat → List String → List String
+    | [], lo, hi, acc => (item lo hi :: acc).reverse
+    | x :: xs, lo, hi, acc => if x == hi + 1 then go xs lo x acc else go xs x x (item lo hi :: acc)
+  match l with
+  | [] => []
+  | x :: xs => go xs x x []
+
+/-- canonical text of a descriptor multiset: the runs of the numbers in use, then the runs of those in use at least
+    twice, ... (independent of the order and of the way the runs were cut) -/
+private def canonRuns (used : List (Nat × Nat)) : String :=
+  let all := (used.flatMap fun p => List.range' p.1 (p.2 + 1 - p.1)).mergeSort
+  let rec layers : Nat → List Nat → List String → List String
+    | 0, _, acc => acc
+    | fuel + 1, l, acc =>
+      if l.isEmpty then acc else
+      let (d, r) := splitDistinct l
+      layers fuel r (acc ++ runStrs d)
+  let out := layers all.length all []
+  if out.isEmpty then "-" else ",".intercalate out
 
 private def apiOf : String → Option NameApi
   | "vsname" => some .vsname | "vsclass" => some .vsclass | "vgname" => some .vgname | "vgclass" => some .vgclass
@@ -110,6 +150,29 @@ def stepLimits (st : LimSt) (args : List String) : LimSt × String :=
     match m.toNat?, usedSet kind a b, natList extra with
     | some m, some u, some ex => (st, toString (newref m (fun r => u r || ex.contains r)).1)
     | _, _, _ => bad
+  | ["refinit", m, runs] =>
+    match m.toNat?, parseRuns runs with
+    | some m, some u => ({ st with refs := ⟨m, u⟩ }, "ok")
+    | _, _ => bad
+  | ["refput", r, n] =>
+    match r.toNat?, n.toNat? with
+    | some r, some n => let s' := refPutN st.refs r n; ({ st with refs := s' }, s!"ok {s'.maxref}")
+    | _, _ => bad
+  | ["refdel", r, n] =>
+    match r.toNat?, n.toNat? with
+    | some r, some n => ({ st with refs := (List.range n).foldl (fun s _ => refDel s r) st.refs }, "ok")
+    | _, _ => bad
+  | ["refalloc", _api, n] =>
+    match n.toNat? with
+    | some n => let x := refAlloc st.refs n; ({ st with refs := x.2 }, s!"{x.1} {x.2.maxref}")
+    | none => bad
+  | ["refstate"] => (st, s!"{st.refs.maxref} {canonRuns st.refs.used}")
+  | ["refreopen", m, runs] =>
+    -- the descriptors in the file after close + open must be the ones the model has; `maxref` is recomputed by the open
+    match m.toNat?, parseRuns runs with
+    | some m, some u =>
+      if canonRuns u == canonRuns st.refs.used then ({ st with refs := ⟨m, u⟩ }, "ok") else (st, "descriptors-differ")
+    | _, _ => bad
   | ["vgins", n] =>
     match n.toNat? with
     | some n => (st, if vinsertOk n then s!"ok {n + 1}" else s!"fail {n}")
@@ -135,6 +198,18 @@ def stepLimits (st : LimSt) (args : List String) : LimSt × String :=
   | ["sdrank", r] =>
     match r.toNat? with
     | some r => (st, if sdrankOk r then "ok" else "fail")
+    | none => bad
+  | ["ndds", r] =>
+    match r.toInt? with
+    | some r => (st, match nddsEff r with | some n => toString n | none => "fail")
+    | none => bad
+  | ["sdvar", c] =>
+    match c.toNat? with
+    | some c => (st, if sdvarOk c then "ok" else "fail")
+    | none => bad
+  | ["sdattr", c] =>
+    match c.toNat? with
+    | some c => (st, if sdattrOk c then "ok" else "fail")
     | none => bad
   | "maxopen" :: sys :: ops =>
     match sys.toNat? with
